@@ -74,6 +74,7 @@ inductive Instr where
   | select (a b : List Instr)                                      -- select_biased!
   | selfwake (k : Nat)                                             -- a future that wakes itself k times
   | abortCmd (name : Nat)                                          -- the task aborts a named command through its AbortHandle
+  | handoff (x n : Nat) (e : Expr) (body : List Instr)             -- let mut f = ctx.request_from_shell(op); poll!(&mut f); spawn(async { x = f.await; body })
   | host (cid : Nat) (m : Mapper)                                  -- (combinators only) cmd.map(m).host(ctx.effects, ctx.events).await
 deriving Repr, Inhabited
 
@@ -422,6 +423,17 @@ def pollBlock (pollNext : Waker → Nat → World → Option (NextRes × World))
         | .join a b => pollBlock pollNext f wk cid (.mk env (.join (.mk env .idle a) (.mk env .idle b) false false) rest') w
         | .select a b => pollBlock pollNext f wk cid (.mk env (.select (.mk env .idle a) (.mk env .idle b)) rest') w
         | .selfwake k => pollBlock pollNext f wk cid (.mk env (.selfwake k) rest') w
+        | .handoff x n e body =>
+          -- the request future is polled once by this task (the request is sent, THIS task's waker is registered), then
+          -- moved into a new task that awaits it: the next poll, by the new task, must replace the registered waker
+          let (l, w) := w.newLeaf (some wk) legacy
+          let w := w.sinkEffect cid ⟨⟨n, env.eval e⟩, .once l⟩
+          match cid with
+          | .cmd c =>
+            let (s, w) := w.newMeta
+            let w := w.modCmd c fun c => { c with spawnQ := c.spawnQ ++ [⟨s, .mk env (.req x l) body⟩] }
+            continue_ env rest' w
+          | .core => continue_ env rest' { w with execSpawn := w.execSpawn ++ [.legacy (.mk env (.req x l) body)] }
         | .abortCmd name =>
           match w.aborts.find? (·.1 == name) with
           | some (_, c) => continue_ env rest' (w.abortCmd c)
